@@ -66,7 +66,7 @@ def is_irrelevant_item(key, value, normalize_amp=True, host=None, lang=False):
     if host:
         h = host.lower()
         for d, keys in PER_DOMAIN.items():
-            if h.endswith(d) and k in keys:
+            if (h == d or h.endswith("." + d)) and k in keys:   # whole labels: 'notyoutube.com' is not youtube
                 return True
     if lang and k in LANG_KEYS:
         return True
